@@ -29,7 +29,7 @@
 EXTENDS GroupObs, TLC, Json
 
 CONSTANTS Clients, NP, LogLen, Initials, CommitChoices, Autos, MaxCalls,
-          ReqKinds, CommitKinds, LeaveKinds, HbKinds, TrigKinds, FaultBudget, TrigBudget,
+          ReqKinds, CommitKinds, LeaveKinds, HbKinds, TrigKinds, FaultBudget, TrigBudget, DataFaults,
           Handlers, RetryMax, Emit, Bug
 
 VARIABLES cfg, co, cl, fb, tb, script, obs
@@ -52,7 +52,8 @@ ClientInit ==
    cst |-> [p \in Parts |-> "none"], nxt |-> [p \in Parts |-> 0], got |-> [p \in Parts |-> 0],
    mk |-> [p \in Parts |-> -1], dirty |-> {}, ctx |-> FALSE, pcancel |-> FALSE, closed |-> "no",
    calls |-> 0, hb |-> "off", retries |-> 0, trig |-> 0, h |-> NoHandler, ftry |-> 0, ac |-> 0, j1 |-> FALSE,
-   nj |-> 0, ns |-> 0]          \* join / sync requests sent in the current Consume call
+   nj |-> 0, ns |-> 0,          \* join / sync requests sent in the current Consume call
+   df |-> -1]                   \* partition whose claim could not start in this call (data-plane fault)
 
 ResetEvent(c) ==
   [ev |-> "reset", initial |-> c.initial, loglen |-> LogLen, logstart |-> 0, auto |-> c.auto,
@@ -62,7 +63,7 @@ Init ==
   /\ cfg \in [initial : Initials, auto : Autos, committed : CommitChoices]
   /\ co = [gs |-> "Empty", gen |-> 0, mem |-> {}, own |-> <<>>, num |-> <<>>, joined |-> {}, leader |-> "",
            asg |-> <<>>, store |-> [p \in Parts |-> cfg.committed[p + 1]], nid |-> 0,
-           hi |-> [p \in Parts |-> 0], anySetup |-> FALSE]
+           hi |-> [p \in Parts |-> 0], anySetup |-> FALSE, dfb |-> DataFaults]
   /\ cl = [c \in Clients |-> ClientInit]
   /\ fb = FaultBudget
   /\ tb = TrigBudget
@@ -75,7 +76,7 @@ Emitting(evs) == obs' = ObsFold(obs, evs, {})
 (* script recording *)
 CurIdx(c) == Len(script[c].sess)
 AppendSess(c, h) ==
-  [script EXCEPT ![c].sess = Append(@, [jf |-> <<>>, sf |-> <<>>, cf |-> <<>>, h |-> h,
+  [script EXCEPT ![c].sess = Append(@, [jf |-> <<>>, sf |-> <<>>, cf |-> <<>>, h |-> h, df |-> -1,
                                           trig |-> [kind |-> "none", at |-> "pre"]])]
 RecJ(s, c, k) == IF CurIdx(c) = 0 THEN s ELSE [s EXCEPT ![c].sess[CurIdx(c)].jf = Append(@, k)]
 RecS(s, c, k) == IF CurIdx(c) = 0 THEN s ELSE [s EXCEPT ![c].sess[CurIdx(c)].sf = Append(@, k)]
@@ -150,7 +151,7 @@ ConsumeCall(c) ==
           /\ script' = AppendSess(c, NoHandler)
      ELSE \E h \in Handlers :
           /\ cl' = [cl EXCEPT ![c].calls = @ + 1, ![c].pc = "join", ![c].retries = RetryMax,
-                              ![c].h = h, ![c].trig = 0, ![c].nj = 0, ![c].ns = 0]
+                              ![c].h = h, ![c].trig = 0, ![c].nj = 0, ![c].ns = 0, ![c].df = -1]
           /\ Emitting(<<[ev |-> "consume_call", c |-> c]>>)
           /\ script' = AppendSess(c, h)
   /\ UNCHANGED <<cfg, co, fb, tb>>
@@ -289,6 +290,18 @@ ClaimBegin(c, p) ==
           /\ cl' = [cl EXCEPT ![c].cst[p] = "run", ![c].nxt[p] = ResolveM(init), ![c].got[p] = 0]
           /\ Emitting(<<[ev |-> "claim_start", c |-> c, p |-> p, init |-> init]>>)
   /\ UNCHANGED <<cfg, co, fb, tb, script>>
+
+\* data-plane fault: ListOffsets for the partition fails, ConsumePartition returns an error, the claim goroutine
+\* reports it and exits (no ConsumeClaim) - its deferred sess.cancel() ends the session
+ClaimFail(c, p) ==
+  LET x == cl[c] IN
+  /\ x.pc = "run" /\ x.cst[p] = "pending" /\ ~MsgsClosed(x) /\ co.dfb > 0 /\ x.df = -1
+  /\ cl' = [cl EXCEPT ![c].cst[p] = "skip", ![c].df = p,
+                      ![c].ctx = IF Bug = "claim_fail_no_cancel" THEN @ ELSE TRUE]
+  /\ co' = [co EXCEPT !.dfb = @ - 1]
+  /\ Emitting(<<[ev |-> "claim_fail", c |-> c, p |-> p]>>)
+  /\ script' = [script EXCEPT ![c].sess[CurIdx(c)].df = p]
+  /\ UNCHANGED <<cfg, fb, tb>>
 
 AtPoint(x, p) == x.got[p] >= x.h.n \/ x.nxt[p] >= LogLen
 
@@ -488,7 +501,7 @@ Next ==
        \/ SetupEnter(c) \/ SetupExit(c) \/ Watcher(c) \/ Release(c) \/ CleanupExit(c)
        \/ AutoCommit(c) \/ FinalCommit(c) \/ HbStop(c) \/ RetErr(c) \/ HbGenuine(c)
        \/ TrigCancel(c) \/ TrigClose(c) \/ TrigHb(c) \/ CloseNormal(c) \/ CloseLeave(c)
-       \/ \E p \in Parts : ClaimBegin(c, p) \/ Deliver(c, p) \/ ClaimReturn(c, p)
+       \/ \E p \in Parts : ClaimBegin(c, p) \/ ClaimFail(c, p) \/ Deliver(c, p) \/ ClaimReturn(c, p)
   \/ JoinComplete
 Spec == Init /\ [][Next]_vars
 
@@ -505,6 +518,9 @@ CleanupAfterClaims ==
      \A p \in cl[c].claims : cl[c].cst[p] \in {"ret", "skip"}
 QuickExitOnlyWhenEnding ==
   \A c \in Clients : \A p \in Parts : cl[c].cst[p] = "skip" => cl[c].ctx
+\* a claim that cannot start ends the session (else the partition stays unconsumed while heartbeats go on)
+ClaimFailEndsSession ==
+  \A c \in Clients : (cl[c].pc = "run" /\ cl[c].df # -1) => cl[c].ctx
 \* two members whose identity the coordinator still accepts never run claims on the same partition
 Valid(c) == cl[c].pc \in SessionPcs /\ cl[c].sid \in co.mem /\ cl[c].sgen = co.gen /\ co.gs = "Stable"
 ValidOwnersDisjoint ==
